@@ -1,7 +1,7 @@
 #!/bin/sh
 # usage: pyvc/seedcheck.sh <PROP> <worktree> [extra props to run]
 # Confirms a seeded change (tests pass with it, demo fails with it / passes without), stores it under seeded/,
-# applies it to /repo, runs the property's check, and undoes it straight afterwards.
+# and runs the property's check against the scratch worktree.
 PROP=$1; WT=$2; shift 2; EXTRA="$@"
 V=/verif
 N=1; while [ -d $V/seeded/$PROP-$N ]; do N=$((N+1)); done
@@ -17,24 +17,23 @@ git stash -q -- architecture_simulator
 PYTHONPATH=$WT /venv/bin/python _seed/demo.py > $D/demo_without.txt 2>&1; RC_WITHOUT=$?
 git stash pop -q
 echo "tests_with_change: $T_WITH"; echo "demo rc with=$RC_WITH without=$RC_WITHOUT"
-cd /repo
-git apply $D/patch.diff || { echo "PATCH DOES NOT APPLY to /repo"; exit 2; }
+# the checks are pointed at the scratch worktree that carries the change (VERIF_REPO); /repo itself is not touched, so
+# a long-running check of the unchanged tree is not disturbed
 RES=""
 for P in $PROP $EXTRA; do
-  OUT=$(cd $V && VERIF_NO_EVIDENCE=1 timeout 3000 ./check $P 2>&1 | grep -E "^(VIOLATION|KNOWN|CHECKER-CRASH|$P tier)" | head -6)
+  OUT=$(cd $V && VERIF_REPO=$WT VERIF_NO_EVIDENCE=1 timeout 3000 ./check $P 2>&1 | grep -E "^(VIOLATION|KNOWN|CHECKER-CRASH|$P tier)" | head -6)
   echo "--- check $P"; echo "$OUT"
   RES="$RES
 [$P] $OUT"
 done
-git -C /repo checkout -- . ; rm -rf /repo/_replays
-git -C /repo status --short | head -3
+rm -rf $WT/_replays
 python3 - "$D" "$PROP" "$T_WITH" "$RC_WITH" "$RC_WITHOUT" "$RES" <<'PY'
 import json,sys
 d,prop,t,rw,rwo,res=sys.argv[1:7]
 notes=open(d+'/notes.md').read() if __import__('os').path.exists(d+'/notes.md') else ''
 json.dump({"property":prop,"origin":"independent sub-agent given only the property text and a scratch worktree","needs_to_manifest":notes[:1500],
  "confirmed":{"existing_tests_with_change":t,"demo_exit_with_change":int(rw),"demo_exit_without_change":int(rwo)},
- "ran":"pyvc/seedcheck.sh: pytest in the scratch worktree with the change; demo.py with and without (git stash); git -C /repo apply patch.diff; ./check; git -C /repo checkout -- .",
+ "ran":"pyvc/seedcheck.sh: pytest in the scratch worktree with the change; demo.py with and without (git stash); ./check with VERIF_REPO=<scratch worktree carrying the change> (rounds 1-4: git -C /repo apply patch.diff; ./check; git -C /repo checkout -- .)",
  "check_output":res.strip().splitlines()[:14]}, open(d+'/meta.json','w'), indent=1)
 PY
 echo "stored in $D"
